@@ -33,6 +33,9 @@ def tokens(values):
     return out, seen
 
 
+_LIVE = []
+
+
 def load_record(tmp, sc, idx):
     """materialise scenario sc as a real directory and load it"""
     w = sc['world']
@@ -65,6 +68,31 @@ def load_record(tmp, sc, idx):
                annot_order=sc.get('annot_order'), orphans=sc.get('orphans', ()))
     os.replace(os.path.join(scratch, 'ref.gdb'), os.path.join(d, 'ref.gdb'))
     shutil.rmtree(scratch, ignore_errors=True)
+    # the genome database is being curated: ANOTHER connection (write-ahead-log mode, kept open, nothing checkpointed) has committed
+    # changes of identifiers; what is loaded afterwards must be the database as committed
+    for op in sc.get('live', []):
+        import sqlite3
+        con = sqlite3.connect(os.path.join(d, 'ref.gdb'), isolation_level=None)
+        _LIVE.append(con)
+        con.execute('PRAGMA journal_mode=WAL')
+        con.execute('PRAGMA wal_autocheckpoint=0')
+        col = store_attr
+        rowid = lambda gi: con.execute('SELECT id FROM genomes WHERE key = ?', (genomes[gi]['key'],)).fetchone()[0]
+        con.execute('BEGIN')
+        if op[0] == 'swap':
+            gi, gj = op[1], op[2]
+            ri, rj = rowid(gi), rowid(gj)
+            a, b = genomes[gi][col], genomes[gj][col]
+            con.execute(f'UPDATE genomes SET {col} = ? WHERE id = ?', (-77 if col == 'ncbi_id' else '__moving__', ri))
+            con.execute(f'UPDATE genomes SET {col} = ? WHERE id = ?', (a, rj))
+            con.execute(f'UPDATE genomes SET {col} = ? WHERE id = ?', (b, ri))
+            genomes[gi][col], genomes[gj][col] = b, a
+            genomes[gi]['contigs'], genomes[gj]['contigs'] = genomes[gj]['contigs'], genomes[gi]['contigs']     # the signature follows the identifier
+        else:
+            gi, val = op[1], op[2]
+            con.execute(f'UPDATE genomes SET {col} = ? WHERE id = ?', (val, rowid(gi)))
+            genomes[gi][col] = val
+        con.execute('COMMIT')
     # metadata id_attr as the scenario wants it (possibly None / junk): rewrite the attribute in place
     import h5py
     with h5py.File(gs_tmp, 'r+') as f:
@@ -144,6 +172,8 @@ def _one_scenario(args):
         out.append(('load', r))
         if db is not None and sc.get('probe') and r['g'] and all(r['g']):
             out.append(('dist', dist_record(db, w2, r['g'], probe, [1000, 1, 2, 3])))
+        while _LIVE:
+            _LIVE.pop().close()
         if db is not None:
             try:
                 db.signatures.close()
@@ -208,6 +238,12 @@ def scenarios(ctx):
             yield dict(world=w, id_attr=attr, sig_order=[0, 2, 3], rename=[(1, attr, base + suffix)], why=f'id with trailing white space {suffix!r}, its signature missing: must fail')
         yield dict(world=w, id_attr=attr, sig_order=[1, 0, 2, 3], rename=[(1, attr, base.swapcase())], probe=True, why='two ids differing by case')
         yield dict(world=w, id_attr=attr, sig_order=[2, 0, 1, 3], rename=[(2, attr, ' ' + base)], probe=True, why='two ids differing by leading white space')
+    # identifiers changed by another, still open connection in write-ahead-log mode (committed, not checkpointed) before loading
+    for attr in ATTRS:
+        yield dict(world=w, id_attr=attr, sig_order=[2, 0, 3, 1], live=[('swap', 0, 2)], probe=True, why='two identifiers swapped by a live write-ahead-log connection')
+        yield dict(world=w, id_attr=attr, sig_order=[0, 1, 2, 3], live=[('swap', 1, 3), ('swap', 1, 0)], probe=True, extra=[dict(extra1[0], pos=2, id=(9999 if attr == 'ncbi_id' else 'unrelated_X'))],
+                   why='two swaps by two live connections')
+        yield dict(world=w, id_attr=attr, sig_order=[3, 2, 1, 0], live=[('set', 1, 424242 if attr == 'ncbi_id' else 'renamed_live')], why='identifier renamed by a live connection, no such signature: must fail')
     # two genomes sharing an ncbi_id (different ncbi_db): refusing is fine, a database lacking one of them is not
     yield dict(world=w, id_attr='ncbi_id', sig_order=[0, 1, 2], dup_ncbi=[(0, 3)], why='two genomes share the id value')
     yield dict(world=w, id_attr='ncbi_id', sig_order=[2, 1, 3], dup_ncbi=[(3, 0)], extra=[dict(extra1[0], pos=0, id=9999)], why='two genomes share the id value (unrelated signature too)')
